@@ -68,6 +68,22 @@ def _zip(parts: dict) -> bytes:
     return buf.getvalue()
 
 
+def _without_core(parts: dict) -> dict:
+    """The same package without docProps/core.xml (the part is optional): part, content-type Override and package relationship removed."""
+    import re
+    out = {}
+    for name, data in parts.items():
+        if name == "docProps/core.xml":
+            continue
+        if name in ("[Content_Types].xml", "_rels/.rels"):
+            text = data.decode("utf-8") if isinstance(data, bytes) else data
+            text = re.sub(r'<Override PartName="/docProps/core.xml"[^>]*/>', "", text)
+            text = re.sub(r'<Relationship [^>]*Target="docProps/core.xml"[^>]*/>', "", text)
+            data = text
+        out[name] = data
+    return out
+
+
 def _rels(rels: list[tuple[str, str, str, bool]]) -> str:
     out = [f'<?xml version="1.0" encoding="UTF-8" standalone="yes"?><Relationships xmlns="{REL}">']
     for rid, typ, target, external in rels:
@@ -274,6 +290,8 @@ def render_docx(doc, *, images=None, opts=None) -> bytes:
     parts.update(st.media)
     ordered = {"[Content_Types].xml": f'<?xml version="1.0" encoding="UTF-8" standalone="yes"?><Types xmlns="{CT}">' + "".join(ctypes + _image_ctypes(opts, st.media) + over) + "</Types>"}
     ordered.update(parts)
+    if (opts or {}).get("no_core") and not {k: v for k, v in (doc.get("props") or {}).items() if not k.startswith("_")}:
+        ordered = _without_core(ordered)
     return _zip(ordered)
 
 
@@ -493,6 +511,8 @@ def render_pptx(doc, *, images=None, opts=None) -> bytes:
     parts.update(media)
     ordered = {"[Content_Types].xml": f'<?xml version="1.0" encoding="UTF-8" standalone="yes"?><Types xmlns="{CT}">' + "".join(ctypes + _image_ctypes(opts, media) + over) + "</Types>"}
     ordered.update(parts)
+    if (opts or {}).get("no_core") and not {k: v for k, v in (doc.get("props") or {}).items() if not k.startswith("_")}:
+        ordered = _without_core(ordered)
     return _zip(ordered)
 
 
